@@ -266,7 +266,7 @@ def drop_point(doc: Node, pos: int, slice: Slice) -> int | None:
                 wrapping = parent.content_match_at(insert_pos).find_wrapping(
                     content.first_child.type,
                 )
-                fits = wrapping is not None and parent.can_replace_with(
+                fits = bool(wrapping) and parent.can_replace_with(
                     insert_pos,
                     insert_pos,
                     wrapping[0],
